@@ -48,6 +48,28 @@ func EncodeView(ctx context.Context, fp io.Writer, view *View, options option.Ex
 	}
 }
 
+// EncodeEndingLineBreak returns the line break that follows the output of EncodeView, as the bytes that EncodeView
+// has written the line breaks between the records with.
+func EncodeEndingLineBreak(options option.ExportOptions) ([]byte, error) {
+	lineBreak := []byte(options.LineBreak.Value())
+
+	switch options.Format {
+	case option.JSON, option.JSONL:
+		// always written in UTF-8
+		return lineBreak, nil
+	}
+
+	switch options.Encoding {
+	case text.UTF16, text.UTF16BE, text.UTF16BEM:
+		// not with the encoding itself, which would put a byte order mark in front
+		return text.Encode(lineBreak, text.UTF16BE)
+	case text.UTF16LE, text.UTF16LEM:
+		return text.Encode(lineBreak, text.UTF16LE)
+	}
+	// a line break has the same bytes in UTF-8 and Shift_JIS
+	return lineBreak, nil
+}
+
 func encodeCSV(ctx context.Context, fp io.Writer, view *View, options option.ExportOptions) error {
 	w, err := csv.NewWriter(fp, options.LineBreak, options.Encoding)
 	if err != nil {
